@@ -2,10 +2,12 @@
 # run every quick check for a range of seeds; print only the summary lines, and everything for a non-zero exit
 cd "$(dirname "$0")/.."
 ./setup.sh >/dev/null 2>&1 || { echo "setup failed"; exit 2; }
+bad=0
 for s in ${SEEDS:-4 5 6 7 8 9}; do
   for p in ${PROPS:-C01 C02 C03 C04 C05 C06 C07 C08 C09 C10 C11 C12 C13 C14 C15 C16 C17 C18 C19 C20}; do
     out=$(VERIF_SEED=$s ./check $p --tier quick 2>&1); rc=$?
     echo "seed=$s $p rc=$rc :: $(echo "$out" | tail -1 | cut -c1-140)"
-    [ $rc != 0 ] && echo "$out" | grep -A1 "^VIOLATION\|MACHINERY" | head -8 | cut -c1-600
+    [ $rc != 0 ] && bad=1 && echo "$out" | grep -A1 "^VIOLATION\|MACHINERY" | head -8 | cut -c1-600
   done
 done
+exit $bad
